@@ -4,9 +4,9 @@ import DeltaModel.Generated.Ingest
 Model of `StateMachine::ingest_line` / `ingest_line_utf8` (`/repo/src/delta.rs`): how an input
 line becomes `raw_line` (what pass-through rows print) and `line` (what the handlers parse).
 
-Domain: valid UTF-8 input (a Rust `String`), as bytes like everywhere in `Ansi`. The other branch
-of `ingest_line` (`String::from_utf8` fails: lossy conversion, cut at `max_line_length` by
-`floor_char_boundary`, no stripping) is **outside the model**; the translator only pins its shape.
+Domain: valid UTF-8 (a Rust `String`), as bytes like everywhere in `Ansi`. For input that is not
+valid UTF-8 the model starts from the lossy string (`ingestInvalid`); which of the two known forms
+the `Err(_)` arm of `ingest_line` has is read from the source (`Generated.invalidUtf8LikeAnyLine`).
 
 The test that decides whether the last `\r` is removed and the guard of the truncation are read
 from the source on every run (`Generated.crRemovedWhen`, `Generated.truncGuard`); the rest of the
@@ -52,5 +52,17 @@ def ingest (U : Uni) (maxLen : Nat) (truncSym : Bytes) (raw : Bytes) : Except St
       match strip r2 with
       | .error m => .error m
       | .ok l => .ok (r2, l)
+
+/-- `ingest_line` on input that is **not** valid UTF-8. The model's input is the *lossy string*
+(`String::from_utf8_lossy(bytes)`: U+FFFD for every maximal invalid sequence — the conversion itself
+is `std`, outside the model; the harness computes it independently and the correspondence compares).
+In the source as it is now the lossy string is ingested like any other line; the older form
+(`Generated.invalidUtf8LikeAnyLine = false`) cut it at `max_line_length` bytes (floored to a char
+boundary; 0 = nothing left) and used it unstripped for both `raw_line` and `line`. -/
+def ingestInvalid (U : Uni) (maxLen : Nat) (truncSym : Bytes) (lossy : Bytes) : Except String (Bytes × Bytes) :=
+  if Generated.invalidUtf8LikeAnyLine then ingest U maxLen truncSym lossy
+  else
+    let n := if maxLen ≥ lossy.length then lossy.length else floorBoundary lossy maxLen
+    .ok (lossy.take n, lossy.take n)
 
 end Ingest
